@@ -26,6 +26,98 @@ func init() {
 		Run: func(rc *simrt.RunCtx) { c10Run(rc, rc.Idx()) }, MaxOps: 2 << 20, Horizon: 3 * time.Hour,
 		Doc: "enumerated: every drop / duplicate / delay-past-timeout of each of the first 6 handshake packets, all single faults and all pairs, for both start orders",
 	})
+	simrt.Register(&simrt.Scenario{
+		Prop: "C10", Name: "hs-stray", Enumerated: true, Count: fixed(len(c10StrayKinds) * 6 * 2),
+		Run: c10Stray, MaxOps: 1 << 20, Horizon: time.Hour,
+		Doc: "enumerated: one attempt on a fault-free transport, one stray packet of an earlier connection (ACK, NACK, DATA, ping, FIN, SYNACK, empty, garbage) delivered to the server or to the client at each of six instants around the SYN / echo / SYNACK exchange; once the client is in the data phase (its SYNACK is out) the server's attempt must have ended too - data phase with the client's window, or an error, never silently half-finished - and a server in the data phase implies a client that is",
+	})
+}
+
+var c10StrayKinds = [][]byte{{ACK, 0}, {NACK, 0}, {DATA, 0, TRUE, FALSE, 's'}, {DATA, 0, TRUE, TRUE}, {FIN}, {SYNACK}, {}, {0x77, 1, 2}}
+
+func c10Stray(rc *simrt.RunCtx) {
+	idx := rc.Idx()
+	kind := c10StrayKinds[idx%len(c10StrayKinds)]
+	at := (idx / len(c10StrayKinds)) % 6
+	toServer := idx/(len(c10StrayKinds)*6) == 0
+	n := uint8(7)
+	hsT := 200 * time.Millisecond
+	tk := tknobs{handshake: hsT, static: true, resend: 200 * time.Millisecond}
+	lat := 10 * time.Millisecond
+	c2s := &netCfg{latMin: lat, latMax: lat}
+	s2c := &netCfg{latMin: lat, latMax: lat}
+	np := newNetPair(rc, c2s, s2c)
+	rc.Knob("stray", fmt.Sprintf("%s to-server=%v at=%d", pktString(kind), toServer, at))
+	ctx, cancel := context.WithCancel(context.Background())
+	defer cancel()
+	opts := []Option{WithTimeoutOptions(tk.opts()...)}
+	type res struct {
+		who string
+		c   *GoBackNConn
+		err error
+	}
+	resCh := make(chan res, 2)
+	go func() {
+		c, err := NewServerConn(ctx, np.s2c.send, np.c2s.recv, opts...)
+		resCh <- res{"server", c, err}
+	}()
+	go func() {
+		c, err := NewClientConn(ctx, n, np.c2s.send, np.s2c.recv, opts...)
+		resCh <- res{"client", c, err}
+	}()
+	// SYN arrives at 10 ms, the echo at 20 ms, the SYNACK at 30 ms: the stray
+	// packet is queued so that it arrives at 5, 12, 15, 22, 25 or 28 ms
+	go func() {
+		time.Sleep([]time.Duration{0, 2, 5, 12, 15, 18}[at] * time.Millisecond)
+		l := np.s2c
+		if toServer {
+			l = np.c2s
+		}
+		l.inject(kind, 0)
+		rc.Fault("stray-" + pktKind(kind))
+	}()
+	bound := 40 * hsT
+	var got []res
+	timeout := time.After(bound)
+wait:
+	for len(got) < 2 {
+		select {
+		case r := <-resCh:
+			got = append(got, r)
+		case <-timeout:
+			break wait
+		}
+	}
+	state := map[string]string{"client": "pending", "server": "pending"}
+	for _, r := range got {
+		if r.err == nil && r.c != nil {
+			state[r.who] = "data-phase"
+			if r.c.cfg.n != n || r.c.cfg.s != n+1 {
+				rc.Violate("c10.window", "stray/"+r.who, "%s in the data phase with n=%d s=%d, the client proposed %d", r.who, r.c.cfg.n, r.c.cfg.s, n)
+			}
+		} else {
+			state[r.who] = "error"
+		}
+		rc.Probe("c10.stray-" + r.who + "-" + state[r.who])
+	}
+	// One attempt each, nobody retries. A side that failed with an error
+	// leaves the other one waiting, legitimately. But a client in the data
+	// phase has sent its SYNACK over a fault-free link: the server must
+	// then have finished its attempt too, one way or the other - and a
+	// server in the data phase implies a client that is.
+	switch {
+	case state["client"] == "data-phase" && state["server"] == "pending":
+		rc.Violate("c10.attempt-hangs", "server/stray-"+pktKind(kind), "%v after the start, on a fault-free transport with one stray %s (to the server: %v, position %d): the client is in the data phase, the server constructor has neither entered the data phase nor failed", bound, pktString(kind), toServer, at)
+	case state["server"] == "data-phase" && state["client"] != "data-phase":
+		rc.Violate("c10.attempt-hangs", "client/stray-"+pktKind(kind), "%v after the start, on a fault-free transport with one stray %s (to the server: %v, position %d): the server is in the data phase, the client is %s", bound, pktString(kind), toServer, at, state["client"])
+	}
+	rc.Progress()
+	cancel()
+	for _, r := range got {
+		if r.c != nil {
+			r.c.Close()
+		}
+	}
 }
 
 // handshake fault patterns: (packet index 0..5, action) singles and pairs.
@@ -139,6 +231,32 @@ func c10Run(rc *simrt.RunCtx, pattern int) {
 			st.mu.Lock()
 			st.synSeen = append(st.synSeen, b[1])
 			st.mu.Unlock()
+		}
+	}
+	// wire-level invariant of the client: it acknowledges a handshake (sends
+	// SYNACK) only after an echo of its own window; the most recent SYN
+	// delivered to it tells which echo a SYNACK answers
+	echoOwn, echoForeign := false, -1
+	np.s2c.tap = func(b []byte) {
+		if len(b) >= 2 && b[0] == SYN {
+			st.mu.Lock()
+			if b[1] == n {
+				echoOwn = true
+			} else {
+				echoForeign = int(b[1])
+			}
+			st.mu.Unlock()
+		}
+	}
+	np.c2s.onSend = func(b []byte) {
+		if len(b) >= 1 && b[0] == SYNACK {
+			st.mu.Lock()
+			own, foreign := echoOwn, echoForeign
+			echoOwn, echoForeign = false, -1
+			st.mu.Unlock()
+			if !own && foreign >= 0 {
+				rc.Violate("c10.window", "client-acknowledged-foreign-window", "the client (window %d) sent SYNACK although the only SYN echoed to it in this attempt carried N=%d: the server may now enter the data phase with a window the client did not propose", n, foreign)
+			}
 		}
 	}
 	// stale packets of an earlier connection
@@ -304,6 +422,9 @@ func c10Run(rc *simrt.RunCtx, pattern int) {
 				return
 			default:
 			}
+			st.mu.Lock()
+			echoOwn, echoForeign = false, -1
+			st.mu.Unlock()
 			c, err := NewClientConn(ctx, n, np.c2s.send, np.s2c.recv, opts...)
 			if err != nil || c == nil {
 				st.mu.Lock()
